@@ -597,7 +597,16 @@ func (g *fgen) inject(clause string) string {
 			idx int
 		}
 		var cs []cand
+		usedAsType := map[string]bool{}
 		for _, t := range g.kinds(Object, Interface) {
+			for _, f := range t.Fields {
+				usedAsType[f.Type.Base()] = true
+			}
+		}
+		for _, t := range g.kinds(Object, Interface) {
+			if usedAsType[t.Name] {
+				continue // a covariant field type elsewhere may rely on what t implements
+			}
 			for i, a := range t.Interfaces {
 				// a is required transitively if another declared interface implements it
 				for _, b := range t.Interfaces {
@@ -729,7 +738,7 @@ func (g *fgen) dirSites() []decoSite {
 	sites := sg.sites()
 	for _, d := range g.s.Directives {
 		for _, a := range d.Args {
-			sites = append(sites, decoSite{&a.Directives, "ARGUMENT_DEFINITION", !a.Required()})
+			sites = append(sites, decoSite{dst: &a.Directives, loc: "ARGUMENT_DEFINITION", optional: !a.Required(), owner: d.Name})
 		}
 	}
 	return sites
@@ -752,7 +761,7 @@ func (g *fgen) injectDirective(clause string) string {
 			}
 		}
 		for _, d := range s.Directives {
-			if !d.Has(st.loc) {
+			if !d.Has(st.loc) && d.Name != st.owner {
 				cands = append(cands, d)
 			}
 		}
@@ -789,7 +798,7 @@ func (g *fgen) injectDirective(clause string) string {
 				continue
 			}
 			for _, x := range sites {
-				if d.Has(x.loc) {
+				if d.Has(x.loc) && d.Name != x.owner {
 					already := false
 					for _, a := range *x.dst {
 						already = already || a.Name == d.Name
@@ -809,7 +818,7 @@ func (g *fgen) injectDirective(clause string) string {
 			d = &DirectiveDef{Name: g.fresh("zzdir"), Locations: []string{"OBJECT", "FIELD_DEFINITION"}, Args: []*ArgDef{{Name: "must", Type: NonNullT(Named("Int"))}, {Name: "opt", Type: Named("String")}}}
 			s.Directives = append(s.Directives, d)
 			o := g.anObject()
-			st = decoSite{&o.Directives, "OBJECT", false}
+			st = decoSite{dst: &o.Directives, loc: "OBJECT"}
 		}
 		app := &DirApp{Name: d.Name}
 		var reqs []*ArgDef
